@@ -34,8 +34,10 @@ CHECKS.update({
         technique="Coq proof (min principle + induction over steps) over hand model + float-instance correspondence + translated matrix",
         design_ref="6/C01"),
     "C04": dict(
-        text="Theorem: with the solver as an oracle under scipy's contract, every accepted level solves its step system within the "
-             "configured tolerance and a non-converged solve is never accepted (any run length). The step system is the model's "
+        text="Theorem: with the iterative solver as an arbitrary oracle (no contract assumed), every stored level passed the code's own "
+             "true-residual test for its step system or is the direct solution, a flagged or drifted iterate is never stored (any run length); "
+             "the decision and the residual test are regenerated from the loop tails (C04_acceptance.v: kept iff info = 0 and test passed; accepted "
+             "residual at most 1e-9 of the right-hand side, no absolute term). The step system is the model's "
              "(proved equal to the translated _build_matrix); per-step residuals of the implementation's stored levels are computed "
              "by the float instance of that model inside Coq for every step of generated runs (nx to 400, p_f/p_i=0.9998); the "
              "tolerance and the info check are read behaviourally by intercepting bicgstab, with fault injection.",
@@ -50,7 +52,7 @@ CHECKS.update({
         design_ref="6/C10"),
     "C17": dict(
         text="Theorems on the model: simulate and flux recovery depend on times only through increments (shift invariance, any c, "
-             "any grid), mismatched schedule length is rejected, interpolator is exact at nodes / 0 before / last after. The "
+             "any grid, any user-supplied diffusivity law - C17_user_law.v), mismatched schedule length is rejected, interpolator is exact at nodes / 0 before / last after. The "
              "implementation is exercised with shifts to 1e6, constant schedules, wrong lengths, and compared with the float model.",
         technique="Coq proof (structural induction on the time fold) + float-instance correspondence",
         design_ref="6/C17"),
@@ -167,16 +169,18 @@ CHECKS.update({
     "C05": dict(
         text="Theorems on forecast.py as regenerated: forecast = M * rf(t/tau), linear in M, invariant under joint rescaling of t and tau; Bounds "
              "rejected iff lower >= upper (and for lengths != 2); fit_bounds shape; regularised guesses lie in the box, unchanged when inside, "
-             "idempotent; for fixed tau the bounded least-squares optimum is the clipped ratio sum(r y)/sum(r r). curve_fit's behaviour "
+             "idempotent; for fixed tau the bounded least-squares optimum is the clipped ratio sum(r y)/sum(r r); the rescaled problem fit() hands to "
+             "the optimiser has the caller's minimisers (C05_fit_scaling.v). curve_fit's behaviour "
              "(bounds honoured, round-trip recovery of M and tau) is validated numerically over many decades.",
         technique="Coq proof (field/lra on py2coq-translated model) + numerical round trips",
         design_ref="6/C05"),
     "C18": dict(
         text="The fitting objective is defined in Coq from the same FlowProperties/simulate/recovery model as C01-C04 (80 nodes, days/tau, "
              "p_initial for both pressures) and proved to vanish at generating parameters; row filter and cumulative production are list "
-             "functions with their characterisation theorems. The float instance of the objective is run against _obj_function; the fit is "
+             "functions with their characterisation theorems; forecast_pressure.py is matched statement for statement and its objective, filter, "
+             "cumulative sum and declared parameter limits are tied to that model (C18_setup.v). The float instance of the objective is run against _obj_function; the fit is "
              "exercised for limits, filtering, window=1 and iteration budgets. lmfit's bounded parameters are a trusted, validated contract.",
-        technique="Coq proof over hand model + float-instance correspondence with _obj_function",
+        technique="Coq proof over hand model + statement-matching translation + float-instance correspondence with _obj_function",
         design_ref="6/C18"),
     "C20": dict(
         text="The two axis transforms are regenerated from plotting.py and proved to be sqrt / square and exact mutual inverses on non-negative "
